@@ -1,6 +1,6 @@
 (* PickleProofs.v — pickling a treespec preserves it exactly (property C11). *)
 From OptreeModel Require Import Base Tree Flatten Unflatten Pickle.
-From OptreeProofs Require Import BaseProofs RoundTrip.
+From OptreeProofs Require Import BaseProofs RoundTrip ValidateProofs.
 
 (* what from_pnode needs of a node to give it back *)
 Definition node_ok (regs : list reg) (ns : Z) (n : node) : Prop :=
@@ -22,13 +22,14 @@ Proof.
 Qed.
 
 Theorem pickle_roundtrip regs s :
-  Forall (node_ok regs (sns s)) (trav s) -> sanity s = true ->
+  Forall (node_ok regs (sns s)) (trav s) -> sanity s = true -> validate (snil s) (trav s) = true ->
   from_pickle regs (to_pickle s) = Ok s.
 Proof.
-  intros Hok Hs. unfold from_pickle, to_pickle.
+  intros Hok.
   assert (Hm : mapM (from_pnode regs (sns s)) (map to_pnode (trav s)) = Ok (trav s)).
   { induction Hok as [|n l Hn Hl IH]; [reflexivity|]. simpl. rewrite (from_to_pnode _ _ _ Hn), IH. reflexivity. }
-  rewrite Hm. simpl. destruct s as [t nl nsp]. simpl in *. rewrite Hs. reflexivity.
+  intros Hs Hv. unfold from_pickle, to_pickle.
+  rewrite Hm. simpl. destruct s as [t nl nsp]. simpl in *. rewrite Hs, Hv. reflexivity.
 Qed.
 
 (* a custom type that is not registered in the recorded namespace (nor globally): loading raises *)
@@ -157,15 +158,16 @@ Qed.
    field of every node (kind, arity, node data, path entries, registration, counters, original keys),
    none_is_leaf and namespace *)
 Theorem flatten_pickle_roundtrip c o ls sp :
-  flatten c o = Ok (ls, sp) -> from_pickle (c_reg c) (to_pickle sp) = Ok sp.
+  wf_obj o = true -> flatten c o = Ok (ls, sp) -> from_pickle (c_reg c) (to_pickle sp) = Ok sp.
 Proof.
+  intros Hwf H. pose proof (flatten_validates c o ls sp Hwf H) as Hval. revert H.
   unfold flatten. intros H.
   destruct (flat c (S (c_limit c)) o) as [[[ls' ns] b]|] eqn:E; [|discriminate].
-  cbn [bind] in H. injection H as <- <-.
+  cbn [bind] in H. injection H as <- <-. cbn [snil trav] in Hval.
   destruct (flat_nodes_ok _ _ _ _ E) as (Hok & Hnc).
   destruct (flat_sanity _ _ _ _ E) as [Hne Hlast].
   unfold r_ns in Hok, Hnc, Hne, Hlast. cbn [fst snd] in Hok, Hnc, Hne, Hlast.
-  apply pickle_roundtrip; cbn [trav sns].
+  apply pickle_roundtrip; cbn [trav sns snil]; [| |exact Hval].
   - unfold spec_ns. destruct b; cbn [orb]; [exact Hok|].
     destruct (ins_ordered_here c); [exact Hok|].
     specialize (Hnc eq_refl). unfold has_custom in Hnc.
